@@ -8,14 +8,53 @@ Import ListNotations.
 (* ---- job limit ---------------------------------------------------------------------------- *)
 
 (* For every job limit n and every sequence of job-loop events (hash start, pop begin/end, task
-   done, promoted hash start/done, drain, wake) starting from the empty loop: at most n tasks
-   occupy slots, hence at most n step commands (commands are only launched inside TJob tasks);
-   promoted hash jobs are a separate counter. *)
+   done, AMEND BEGIN/END = a running step task parks in / leaves Builder.run_promoted_hash_jobs
+   while its command is blocked in amend(), promoted hash start/done, drain, wake) starting from the
+   empty loop: at most n tasks (step tasks and hash tasks together) occupy slots, hence at most n
+   step commands execute (commands are only launched inside TJob tasks, and a command blocked in
+   amend() still counts); promoted hash jobs are a separate counter. lstep uses the two tests of
+   Builder.job_loop as translated from the source (gen.GenLimits.hash_slot_free / job_slot_free,
+   functions of len(running_tasks), the number of parked amend calls and njob). *)
 Theorem C12_running_le_njob :
   forall (n : nat) (evs : list lev),
     let l := lrun (loop_init n) evs in
-    length (running l) <= n /\ command_tasks l <= n /\ njob l = n.
+    length (running l) <= n /\ command_tasks l <= n /\ njob l = n /\ overrun l = false.
 Proof. exact running_le_njob_proof. Qed.
+
+(* The same for ANY pair of tests that admit a start only when fewer than njob tasks are tracked,
+   whatever the number of parked tasks (sound_test) ... *)
+Theorem C12_running_le_njob_of_sound_tests :
+  forall hg jg, sound_test hg -> sound_test jg ->
+  forall (n : nat) (evs : list lev),
+    let l := lrun_gen hg jg (loop_init n) evs in
+    length (running l) <= n /\ command_tasks l <= n /\ njob l = n /\ overrun l = false.
+Proof. exact running_le_njob_of_sound. Qed.
+
+(* ... which the generated tests are. *)
+Theorem C12_slot_tests_sound : sound_test hash_slot_free /\ sound_test job_slot_free.
+Proof. exact (conj hash_slot_free_sound job_slot_free_sound). Qed.
+
+(* A command parked in amend() is one of the counted commands. *)
+Theorem C12_parked_commands_counted :
+  forall (n : nat) (evs : list lev),
+    let l := lrun (loop_init n) evs in
+    forall j, existsb (task_eqb (TJob j)) (running l) = true -> 1 <= command_tasks l <= n.
+Proof. exact parked_commands_counted. Qed.
+
+(* The model's counterexample search finds no overrun at any depth (it is evaluated by the check on
+   every run; a hit is exactly an unsound test). *)
+Theorem C12_search_finds_no_overrun : forall n t d, shortest_overrun n d t = None.
+Proof. exact shortest_overrun_none. Qed.
+
+(* The test that lends the slot of a parked step to the job loop (len(running_tasks) -
+   waiting_tasks < njob) is unsound; the search returns a 5-event history with two commands
+   executing under njob = 1, also when only the test in front of pop_next_job is changed. *)
+Theorem C12_lend_test_refuted :
+  ~ sound_test lend_slot_free /\
+  shortest_overrun_gen lend_slot_free lend_slot_free 1 0 8 = Some lend_witness /\
+  command_tasks (lrun_gen lend_slot_free lend_slot_free (loop_init 1) lend_witness) = 2 /\
+  overrun (lrun_gen hash_slot_free lend_slot_free (loop_init 1) lend_witness) = true.
+Proof. exact (conj lend_test_unsound lend_test_refuted). Qed.
 
 (* ---- resources ---------------------------------------------------------------------------- *)
 
@@ -249,3 +288,11 @@ Proof. vm_compute. split; [reflexivity|discriminate]. Qed.
 Example C12_example_loop :
   length (running (lrun (loop_init 2) [LPopBegin; LPopEnd (Some 1); LHashStart 7; LPopBegin; LHashStart 8; LPromotedStart])) = 2.
 Proof. vm_compute. reflexivity. Qed.
+
+(* njob = 1: job 1 runs and parks in amend(); neither a hash task nor a second job is started next
+   to it, and its promoted hash job is not a slot; after it ended, job 2 starts *)
+Example C12_example_amend :
+  let l := lrun (loop_init 1) [LPopBegin; LPopEnd (Some 1); LAmendBegin 1; LPromotedStart; LHashStart 7; LPopBegin; LPopEnd (Some 2)] in
+  running l = [TJob 1] /\ amending l = [1] /\ promoted l = 1 /\
+  running (lrun l [LPromotedDone; LAmendEnd 1; LTaskDone (TJob 1); LPopBegin; LPopEnd (Some 2)]) = [TJob 2].
+Proof. vm_compute. repeat split; reflexivity. Qed.
